@@ -1,1 +1,269 @@
-(* Proofs/Tridiag.v -- stub, to be filled in *)
+(* Proofs/Tridiag.v -- lemmas about Model/Tridiag.v: every view of a tridiagonal matrix equals its
+   dense twin [dense t : nat -> nat -> A] (the textbook matrix with the same three diagonals). *)
+From Coq Require Import List Arith Lia Bool Ring_theory Ring.
+From OV Require Import Base.Panic Base.Arith Model.Vector Model.Matrix Model.Tridiag.
+Import ListNotations.
+
+(* ---------- small list facts ---------- *)
+Lemma nth_repeat_any {X} (x : X) n i : nth i (repeat x n) x = x.
+Proof. revert i; induction n as [|n IH]; intros [|i]; cbn; auto. Qed.
+
+Lemma nth_repeat_lt {X} (x d : X) n i : i < n -> nth i (repeat x n) d = x.
+Proof. revert i; induction n as [|n IH]; intros [|i] H; cbn; auto; try lia. apply IH; lia. Qed.
+
+Lemma idx_inj c a b a' b' : b < c -> b' < c -> a * c + b = a' * c + b' -> a = a' /\ b = b'.
+Proof.
+  intros Hb Hb' E.
+  assert (a = a') as ->.
+  { apply (f_equal (fun x => x / c)) in E.
+    rewrite !Nat.div_add_l, !Nat.div_small, !Nat.add_0_r in E by lia. exact E. }
+  split; [reflexivity | lia].
+Qed.
+
+Section TriProofs.
+Context {A : Arith}.
+Notation T := (T A).
+Notation tridiag := (tridiag A).
+Notation matrix := (matrix A).
+
+(* well-formed: the invariant every constructor establishes *)
+Definition wfT (t : tridiag) : Prop :=
+  length (tmain t) = tn t /\ length (tsub t) = tn t - 1 /\ length (tsup t) = tn t - 1.
+
+(* in the band: on one of the three diagonals *)
+Definition in_band (i j : nat) : Prop := i = j \/ i = j + 1 \/ i + 1 = j.
+
+(* dense-matrix side: well-formed flat buffer and its (i,j) entry *)
+Definition wfM (m : matrix) : Prop := length (buf m) = rows m * cols m.
+Definition entry (m : matrix) (i j : nat) : T := nth (i * cols m + j) (buf m) zero.
+
+(* ---------- constructors establish wfT ---------- *)
+Lemma with_vecs_spec (sub main sup : list T) :
+  1 <= length main -> length sub = length main - 1 -> length sup = length main - 1 ->
+  exists t, with_vecs sub main sup = Ok t /\ wfT t /\ tn t = length main /\
+            tsub t = sub /\ tmain t = main /\ tsup t = sup.
+Proof.
+  intros Hn Hs Hp. unfold with_vecs, usub.
+  destruct (Nat.leb_spec 1 (length main)) as [_|]; [|lia]. cbn [bind].
+  rewrite Hs, Hp, Nat.eqb_refl. cbn [negb bind].
+  eexists; split; [reflexivity|]. unfold wfT; cbn. auto.
+Qed.
+
+Lemma with_vecs_rejects (sub main sup : list T) :
+  1 <= length main -> (length sub <> length main - 1 \/ length sup <> length main - 1) ->
+  with_vecs sub main sup = Panic Guard.
+Proof.
+  intros Hn H. unfold with_vecs, usub.
+  destruct (Nat.leb_spec 1 (length main)) as [_|]; [|lia]. cbn [bind].
+  destruct (Nat.eqb_spec (length sub) (length main - 1)) as [E1|]; cbn [negb]; [|reflexivity].
+  cbn [bind]. destruct (Nat.eqb_spec (length sup) (length main - 1)) as [E2|]; cbn [negb]; [|reflexivity].
+  lia.
+Qed.
+
+Lemma with_elements_spec (a b c : T) n : 1 <= n ->
+  exists t, with_elements a b c n = Ok t /\ wfT t /\ tn t = n /\
+    forall i j, i < n -> j < n -> dense t i j =
+      if i =? j then b else if i =? j + 1 then a else if i + 1 =? j then c else zero.
+Proof.
+  intros Hn. unfold with_elements, usub.
+  destruct (Nat.leb_spec 1 n) as [_|]; [|lia]. cbn [bind].
+  eexists; split; [reflexivity|]. unfold wfT; cbn [tmain tsub tsup tn].
+  rewrite !repeat_length. repeat split; auto.
+  intros i j Hi Hj. unfold dense; cbn [tmain tsub tsup].
+  destruct (Nat.eqb_spec i j); [apply nth_repeat_lt|]; try lia.
+  destruct (Nat.eqb_spec i (j + 1)); [apply nth_repeat_lt|]; try lia.
+  destruct (Nat.eqb_spec (i + 1) j); [apply nth_repeat_lt|]; try lia.
+  reflexivity.
+Qed.
+
+(* ---------- index: the dense twin on the three diagonals, a refusal everywhere else ---------- *)
+Lemma tindex_in_band t i j : wfT t -> i < tn t -> j < tn t -> in_band i j ->
+  tindex t i j = Ok (dense t i j).
+Proof.
+  intros (Hm & Hs & Hp) Hi Hj Hb. unfold tindex, dense.
+  destruct (Nat.leb_spec (tn t) i); [lia|]. destruct (Nat.leb_spec (tn t) j); [lia|]. cbn [orb].
+  destruct (Nat.eqb_spec i j); [apply rd_ok; lia|].
+  destruct (Nat.eqb_spec i (j + 1)); [apply rd_ok; lia|].
+  destruct (Nat.eqb_spec (i + 1) j); [apply rd_ok; lia|].
+  unfold in_band in Hb; lia.
+Qed.
+
+Lemma tindex_refuses (t : tridiag) i j : (tn t <= i \/ tn t <= j \/ ~ in_band i j) -> tindex t i j = Panic Guard.
+Proof.
+  intros H. unfold tindex.
+  destruct (Nat.leb_spec (tn t) i); [reflexivity|]. destruct (Nat.leb_spec (tn t) j); [reflexivity|]. cbn [orb].
+  unfold in_band in H.
+  destruct (Nat.eqb_spec i j); [lia|]. destruct (Nat.eqb_spec i (j + 1)); [lia|].
+  destruct (Nat.eqb_spec (i + 1) j); [lia|]. reflexivity.
+Qed.
+
+Lemma dense_off_band (t : tridiag) i j : ~ in_band i j -> dense t i j = zero.
+Proof.
+  intros H. unfold dense, in_band in *.
+  destruct (Nat.eqb_spec i j); [lia|]. destruct (Nat.eqb_spec i (j + 1)); [lia|].
+  destruct (Nat.eqb_spec (i + 1) j); [lia|]. reflexivity.
+Qed.
+
+(* ---------- writes through IndexMut ---------- *)
+Lemma tset_in_band t i j x : wfT t -> i < tn t -> j < tn t -> in_band i j ->
+  exists t', tset t i j x = Ok t' /\ wfT t' /\ tn t' = tn t /\
+    forall a b, a < tn t -> b < tn t ->
+      dense t' a b = if (a =? i) && (b =? j) then x else dense t a b.
+Proof.
+  intros (Hm & Hs & Hp) Hi Hj Hb. unfold tset.
+  destruct (Nat.leb_spec (tn t) i); [lia|]. destruct (Nat.leb_spec (tn t) j); [lia|]. cbn [orb].
+  destruct (Nat.eqb_spec i j) as [E|NE].
+  { subst j. rewrite upd_ok by lia. cbn [bind]. eexists; split; [reflexivity|].
+    unfold wfT; cbn [tmain tsub tsup tn]. rewrite upd_list_length. repeat split; auto.
+    intros a b Ha Hb'. unfold dense; cbn [tmain tsub tsup].
+    destruct (Nat.eqb_spec a b) as [Eab|]; [subst a|].
+    - rewrite nth_upd_list by lia. destruct (Nat.eqb_spec b i); cbn [andb]; reflexivity.
+    - destruct (Nat.eqb_spec a i); destruct (Nat.eqb_spec b i); cbn [andb]; try reflexivity; lia. }
+  destruct (Nat.eqb_spec i (j + 1)) as [E|NE2].
+  { subst i. rewrite upd_ok by lia. cbn [bind]. eexists; split; [reflexivity|].
+    unfold wfT; cbn [tmain tsub tsup tn]. rewrite upd_list_length. repeat split; auto.
+    intros a b Ha Hb'. unfold dense; cbn [tmain tsub tsup].
+    destruct (Nat.eqb_spec a b) as [Eab|]; [subst a|].
+    { destruct (Nat.eqb_spec b (j + 1)); destruct (Nat.eqb_spec b j); cbn [andb]; try reflexivity; lia. }
+    destruct (Nat.eqb_spec a (b + 1)) as [->|].
+    { rewrite nth_upd_list by lia.
+      destruct (Nat.eqb_spec b j); destruct (Nat.eqb_spec (b + 1) (j + 1)); cbn [andb]; try reflexivity; lia.
+    }
+    destruct (Nat.eqb_spec a (j + 1)); destruct (Nat.eqb_spec b j); cbn [andb]; try reflexivity; lia. }
+  destruct (Nat.eqb_spec (i + 1) j) as [E|NE3]; [|unfold in_band in Hb; lia].
+  subst j. rewrite upd_ok by lia. cbn [bind]. eexists; split; [reflexivity|].
+  unfold wfT; cbn [tmain tsub tsup tn]. rewrite upd_list_length. repeat split; auto.
+  intros a b Ha Hb'. unfold dense; cbn [tmain tsub tsup].
+  destruct (Nat.eqb_spec a b) as [Eab|]; [subst a|].
+  { destruct (Nat.eqb_spec b i); destruct (Nat.eqb_spec b (i + 1)); cbn [andb]; try reflexivity; lia. }
+  destruct (Nat.eqb_spec a (b + 1)) as [->|].
+  { destruct (Nat.eqb_spec (b + 1) i); destruct (Nat.eqb_spec b (i + 1)); cbn [andb]; try reflexivity; lia. }
+  destruct (Nat.eqb_spec (a + 1) b) as [<-|].
+  { rewrite nth_upd_list by lia.
+    destruct (Nat.eqb_spec a i); destruct (Nat.eqb_spec (a + 1) (i + 1)); cbn [andb]; try reflexivity; lia. }
+  destruct (Nat.eqb_spec a i); destruct (Nat.eqb_spec b (i + 1)); cbn [andb]; try reflexivity; lia.
+Qed.
+
+Lemma tset_refuses (t : tridiag) i j x : (tn t <= i \/ tn t <= j \/ ~ in_band i j) -> tset t i j x = Panic Guard.
+Proof.
+  intros H. unfold tset.
+  destruct (Nat.leb_spec (tn t) i); [reflexivity|]. destruct (Nat.leb_spec (tn t) j); [reflexivity|]. cbn [orb].
+  unfold in_band in H.
+  destruct (Nat.eqb_spec i j); [lia|]. destruct (Nat.eqb_spec i (j + 1)); [lia|].
+  destruct (Nat.eqb_spec (i + 1) j); [lia|]. reflexivity.
+Qed.
+
+(* ---------- transpose = exchange of sub- and super-diagonal ---------- *)
+Lemma ttranspose_spec t : wfT t ->
+  wfT (ttranspose t) /\ tn (ttranspose t) = tn t /\ forall i j, dense (ttranspose t) i j = dense t j i.
+Proof.
+  intros (Hm & Hs & Hp). unfold ttranspose, ttranspose_in_place, wfT; cbn [tmain tsub tsup tn].
+  repeat split; auto.
+  intros i j. unfold dense; cbn [tmain tsub tsup].
+  destruct (Nat.eqb_spec i j) as [->|]; [now rewrite Nat.eqb_refl|].
+  destruct (Nat.eqb_spec j i); [lia|].
+  destruct (Nat.eqb_spec i (j + 1)) as [->|].
+  { destruct (Nat.eqb_spec j (j + 1 + 1)); [lia|]. now rewrite Nat.eqb_refl. }
+  destruct (Nat.eqb_spec (j + 1) i); [lia|].
+  destruct (Nat.eqb_spec (i + 1) j) as [<-|].
+  { now rewrite Nat.eqb_refl. }
+  destruct (Nat.eqb_spec j (i + 1)); [lia|]. reflexivity.
+Qed.
+
+(* ---------- convert: the flat row-major dense matrix holds the dense twin ---------- *)
+Lemma mset_spec (d : matrix) a b x : wfM d -> a < rows d -> b < cols d ->
+  exists d', mset d a b x = Ok d' /\ wfM d' /\ rows d' = rows d /\ cols d' = cols d /\
+    forall a' b', a' < rows d -> b' < cols d ->
+      entry d' a' b' = if (a' =? a) && (b' =? b) then x else entry d a' b'.
+Proof.
+  intros Hw Ha Hb. unfold mset, wfM in *.
+  assert (Hlt : a * cols d + b < length (buf d)) by nia.
+  rewrite upd_ok by exact Hlt. cbn [bind]. eexists; split; [reflexivity|].
+  cbn [buf rows cols]. rewrite upd_list_length. repeat split; auto.
+  intros a' b' Ha' Hb'. unfold entry; cbn [buf rows cols].
+  rewrite nth_upd_list by exact Hlt.
+  destruct (Nat.eqb_spec (a' * cols d + b') (a * cols d + b)) as [E|NE].
+  - apply idx_inj in E as [-> ->]; auto. now rewrite !Nat.eqb_refl.
+  - destruct (Nat.eqb_spec a' a) as [->|]; destruct (Nat.eqb_spec b' b) as [->|]; cbn [andb]; auto; lia.
+Qed.
+
+Lemma tconvert_spec t : wfT t -> 1 <= tn t ->
+  exists m, tconvert t = Ok m /\ wfM m /\ rows m = tn t /\ cols m = tn t /\
+    forall i j, i < tn t -> j < tn t -> entry m i j = dense t i j.
+Proof.
+  intros (Hm & Hs & Hp) Hn. unfold tconvert.
+  set (n := tn t) in *.
+  assert (W0 : wfM (mat_new n n (@zero A)) /\ rows (mat_new n n (@zero A)) = n /\ cols (mat_new n n (@zero A)) = n
+               /\ forall i j, entry (mat_new n n (@zero A)) i j = zero).
+  { unfold wfM, mat_new, entry; cbn. rewrite repeat_length. repeat split; auto.
+    intros; apply nth_repeat_any. }
+  destruct W0 as (W0 & R0 & C0 & E0).
+  destruct (Nat.eqb_spec n 0); [lia|].
+  destruct (Nat.eqb_spec n 1) as [N1|N1].
+  - (* n = 1 *)
+    rewrite (rd_ok _ _ zero) by lia. cbn [bind].
+    destruct (mset_spec (mat_new n n zero) 0 0 (nth 0 (tmain t) zero) W0) as (d & E & W & R & C & V); try lia.
+    exists d; split; [exact E|]. rewrite R, C, R0, C0. repeat split; auto.
+    intros i j Hi Hj. rewrite V by lia. assert (i = 0) as -> by lia. assert (j = 0) as -> by lia. reflexivity.
+  - (* n >= 2 *)
+    rewrite (rd_ok _ _ zero) by lia. cbn [bind].
+    destruct (mset_spec (mat_new n n zero) 0 0 (nth 0 (tmain t) zero) W0) as (d1 & E1 & W1 & R1 & C1 & V1); try lia.
+    rewrite E1; cbn [bind]. rewrite (rd_ok _ _ zero) by lia. cbn [bind].
+    destruct (mset_spec d1 0 1 (nth 0 (tsup t) zero) W1) as (d2 & E2 & W2 & R2 & C2 & V2); try lia.
+    rewrite E2; cbn [bind].
+    (* the loop over the interior rows *)
+    pose (I := fun (i : nat) (d : matrix) =>
+      wfM d /\ rows d = n /\ cols d = n /\
+      forall a b, a < n -> b < n -> entry d a b = if a <? i then dense t a b else zero).
+    assert (I2 : I 1 d2).
+    { unfold I. rewrite R2, C2, R1, C1, R0, C0. repeat split; auto.
+      intros a b Ha Hb. rewrite V2, V1 by lia. rewrite E0.
+      destruct (Nat.ltb_spec a 1) as [La|La].
+      - assert (a = 0) as -> by lia. cbn [Nat.eqb andb]. unfold dense.
+        destruct b as [|[|b]]; cbn [Nat.eqb andb]; reflexivity.
+      - destruct (Nat.eqb_spec a 0); [lia|]. reflexivity. }
+    destruct (for_inv I 1 (n - 1) (fun i d =>
+                let* x := rd (tsub t) (i - 1) in
+                let* d := mset d i (i - 1) x in
+                let* x := rd (tmain t) i in
+                let* d := mset d i i x in
+                let* x := rd (tsup t) i in
+                mset d i (i + 1) x) d2) as (d3 & E3 & (W3 & R3 & C3 & V3)); [lia|exact I2| |].
+    { intros i d Hi (W & R & C & V).
+      rewrite (rd_ok _ _ zero) by lia. cbn [bind].
+      destruct (mset_spec d i (i - 1) (nth (i - 1) (tsub t) zero) W) as (da & Ea & Wa & Ra & Ca & Va); try lia.
+      rewrite Ea; cbn [bind]. rewrite (rd_ok _ _ zero) by lia. cbn [bind].
+      destruct (mset_spec da i i (nth i (tmain t) zero) Wa) as (db & Eb & Wb & Rb & Cb & Vb); try lia.
+      rewrite Eb; cbn [bind]. rewrite (rd_ok _ _ zero) by lia. cbn [bind].
+      destruct (mset_spec db i (i + 1) (nth i (tsup t) zero) Wb) as (dc & Ec & Wc & Rc & Cc & Vc); try lia.
+      exists dc; split; [exact Ec|]. unfold I. rewrite Rc, Cc, Rb, Cb, Ra, Ca. repeat split; auto.
+      intros a b Ha Hb. rewrite Vc, Vb, Va, V by lia.
+      destruct (Nat.eqb_spec a i) as [Eai|NA]; [subst a|]; cbn [andb].
+      - destruct (Nat.ltb_spec i (S i)); [|lia]. destruct (Nat.ltb_spec i i); [lia|].
+        unfold dense.
+        destruct (Nat.eqb_spec b (i + 1)) as [->|].
+        { destruct (Nat.eqb_spec i (i + 1)); [lia|]. destruct (Nat.eqb_spec i (i + 1 + 1)); [lia|].
+          now rewrite Nat.eqb_refl. }
+        destruct (Nat.eqb_spec b i) as [Ebi|]; [subst b; now rewrite Nat.eqb_refl|].
+        destruct (Nat.eqb_spec i b); [lia|].
+        destruct (Nat.eqb_spec b (i - 1)) as [->|].
+        { destruct (Nat.eqb_spec i (i - 1 + 1)); [reflexivity|lia]. }
+        destruct (Nat.eqb_spec i (b + 1)); [lia|]. destruct (Nat.eqb_spec (i + 1) b); [lia|]. reflexivity.
+      - destruct (Nat.ltb_spec a (S i)); destruct (Nat.ltb_spec a i); try reflexivity; lia. }
+    rewrite E3; cbn [bind]. rewrite (rd_ok _ _ zero) by lia. cbn [bind].
+    destruct (mset_spec d3 (n - 1) (n - 2) (nth (n - 2) (tsub t) zero) W3) as (d4 & E4 & W4 & R4 & C4 & V4); try lia.
+    rewrite E4; cbn [bind]. rewrite (rd_ok _ _ zero) by lia. cbn [bind].
+    destruct (mset_spec d4 (n - 1) (n - 1) (nth (n - 1) (tmain t) zero) W4) as (d5 & E5 & W5 & R5 & C5 & V5); try lia.
+    exists d5; split; [exact E5|]. rewrite R5, C5, R4, C4. repeat split; auto.
+    intros i j Hi Hj. rewrite V5, V4, V3 by lia.
+    destruct (Nat.eqb_spec i (n - 1)) as [->|NI]; cbn [andb].
+    + destruct (Nat.ltb_spec (n - 1) (n - 1)); [lia|]. unfold dense.
+      destruct (Nat.eqb_spec j (n - 1)) as [->|]; [now rewrite Nat.eqb_refl|].
+      destruct (Nat.eqb_spec (n - 1) j); [lia|].
+      destruct (Nat.eqb_spec j (n - 2)) as [->|].
+      { destruct (Nat.eqb_spec (n - 1) (n - 2 + 1)); [reflexivity|lia]. }
+      destruct (Nat.eqb_spec (n - 1) (j + 1)); [lia|]. destruct (Nat.eqb_spec (n - 1 + 1) j); [lia|]. reflexivity.
+    + destruct (Nat.ltb_spec i (n - 1)); [reflexivity|lia].
+Qed.
+
+End TriProofs.
